@@ -312,7 +312,12 @@ def main(ck):
         go_bad = bool(ch.get("stat_fail"))
         if go_bad:
             report("stored-statistics", "the chunk statistics stored in the data file differ from the rows decoded from its segments: " + ch["stat_fail"], ctx)
-        if model_ok and bool(res.get(1)) != go_bad and not (0 in res):
+        if ch.get("stat_time_fail"):
+            ck.broken.append("C09 chunk theorems: hypothesis c_stats = build_stats fails on the TIME of a stored integer/float min/max (values are "
+                             "right; the model's tie rule 'earliest row carrying the extreme value' no longer mirrors the code): file seq %d series %d "
+                             "of history %d: %s" % (ch["seq"], ch["series"], h["case"], ch["stat_time_fail"]))
+            ck.nofail_detail = ctx
+        elif model_ok and bool(res.get(1)) != go_bad and not (0 in res):
             ck.broken.append("correspondence C09: model build_stats and the harness disagree about the stored statistics of file seq %d series %d "
                              "of history %d (model mismatches %s, harness: %s)" % (ch["seq"], ch["series"], h["case"], sorted(res.get(1, [])), ch.get("stat_fail")))
             ck.nofail_detail = ctx
@@ -357,6 +362,11 @@ def main(ck):
         mctx = {"memcase": mc}
         if model_ok and 0 in res:
             ck.broken.append("C09 memtable case %d: generated record is not in ascending time order" % mi)
+        if mc.get("time_only"):
+            ck.broken.append("C09 memtable model: the builder's min/max TIME is not the earliest row carrying the value (values are right; the model's "
+                             "tie rule no longer mirrors the code): " + mc["time_only"])
+            ck.nofail_detail = mctx
+            continue
         if model_ok and rep_bad != cur_bad:
             variant_mem["current" if rep_bad else "repaired"] += 1
         if model_ok and rep_bad and not cur_bad:
